@@ -88,6 +88,12 @@ def fid(owner, name):
     return name if owner == 'global' else owner + '.' + name
 
 
+# 15.2.3.3: Object.getOwnPropertyDescriptor answers for every own property.  otto: it panics (a Go panic that
+# leaves Run) on the accessor properties the implementation adds to function objects created at run time
+# ("caller") and to Error instances ("stack"): their mode says "data descriptor"  (mk marks those objects)
+GOPD = dev('D14_gopd_panics_on_internal_accessor', 'go-panic', 'ok')
+
+
 def obj(id, cls, proto, js='', via=None, callable=False, ctor=False, ext=True, call='', exp=None, clause='',
         grp='lib', exact=False, mk=''):
     """cls/proto '?' = implementation-dependent (not compared).  exact: the own property list is complete
@@ -97,7 +103,8 @@ def obj(id, cls, proto, js='', via=None, callable=False, ctor=False, ext=True, c
     SEEN_OBJ[id] = 1
     OBJS.append(dict(id=id, js=js, vo=via[0] if via else '', vn=via[1] if via else '', cls=cls, proto=proto,
                      callable=callable, ctor=ctor, ext=ext, call=call,
-                     callexp=exp if isinstance(exp, Raw) else (val(exp) if call else UNDEF), clause=clause, grp=grp, mk=mk))
+                     callexp=exp if isinstance(exp, Raw) else (val(exp) if call else UNDEF), clause=clause, grp=grp, mk=mk,
+                     reflect=GOPD if mk else 'ok'))
 
 
 def row(owner, name, kind, attrs='', target='', v=UNDEF, valmode='exact', clause='', length=-1):
@@ -596,6 +603,57 @@ ref('i:arguments', 'callee', 'i:argsFn', '10.6 step 13.a', attrs='TFT')
 obj('i:hostFunction', 'Function', 'Function.prototype', mk='function-object', js='HOSTFN', callable=True, call="F(20, 22)", exp=42,
     clause='15 (built-in function objects) / 15.3.5', grp=I)
 
+# 13 function declaration, 11.1.5 accessor functions in an object initialiser: function objects made by 13.2 as well
+obj('i:functionDecl', 'Function', 'Function.prototype', mk='function-object',
+    js='(function(){ function f(a, b, c){ return c } return f })()', callable=True, ctor=True,
+    call="F(4, 5, 6) + '|' + CLS(new F())", exp='6|Object', clause='13 / 13.2', grp=I)
+row('i:functionDecl', 'length', 'length', v=val(3), clause='13.2 step 15 / 15.3.5.1')
+row('i:functionDecl', 'prototype', 'object', attrs='TFF', target='i:functionDecl.prototype', clause='15.3.5.2')
+obj('i:functionDecl.prototype', 'Object', 'Object.prototype', via=('i:functionDecl', 'prototype'), clause='13.2 step 16', grp=I)
+ref('i:functionDecl.prototype', 'constructor', 'i:functionDecl', '13.2 step 17', attrs='TFT')
+obj('i:setter', 'Function', 'Function.prototype', mk='function-object',
+    js="Object.getOwnPropertyDescriptor({set x(v){ this.y = v }}, 'x').set", callable=True, ctor=True,
+    call="var o = {}; F.call(o, 7); o.y", exp=7, clause='11.1.5 / 13.2', grp=I)
+row('i:setter', 'length', 'length', v=val(1), clause='13.2 step 15')
+row('i:setter', 'prototype', 'object', attrs='TFF', target='i:setter.prototype', clause='15.3.5.2')
+obj('i:setter.prototype', 'Object', 'Object.prototype', via=('i:setter', 'prototype'), clause='13.2 step 16', grp=I)
+ref('i:setter.prototype', 'constructor', 'i:setter', '13.2 step 17', attrs='TFT')
+
+# objects that library functions create: every property they define is {w, e, c}
+# 15.10.6.2 steps 15-21: the array exec returns
+obj('i:execResult', 'Array', 'Array.prototype', js="/b(c)/.exec('abcd')", clause='15.10.6.2', grp=I)
+value('i:execResult', 'length', 2, '15.10.6.2 step 19 / 15.4.5.2', attrs='TFF')
+element('i:execResult', '0', 'bc', 'TTT', '15.10.6.2 step 20')
+element('i:execResult', '1', 'c', 'TTT', '15.10.6.2 step 21')
+element('i:execResult', 'index', 1, 'TTT', '15.10.6.2 step 17')
+element('i:execResult', 'input', 'abcd', 'TTT', '15.10.6.2 step 18')
+# 8.10.4 FromPropertyDescriptor
+obj('i:descriptor', 'Object', 'Object.prototype', js="Object.getOwnPropertyDescriptor({x:1}, 'x')", clause='8.10.4 / 15.2.3.3', grp=I)
+element('i:descriptor', 'configurable', True, 'TTT', '8.10.4 step 6')
+element('i:descriptor', 'enumerable', True, 'TTT', '8.10.4 step 5')
+element('i:descriptor', 'value', 1, 'TTT', '8.10.4 step 3.a')
+element('i:descriptor', 'writable', True, 'TTT', '8.10.4 step 3.b')
+obj('i:accessorDescriptor', 'Object', 'Object.prototype', js="Object.getOwnPropertyDescriptor({get x(){ return 1 }}, 'x')",
+    clause='8.10.4 / 15.2.3.3', grp=I)
+element('i:accessorDescriptor', 'configurable', True, 'TTT', '8.10.4 step 6')
+element('i:accessorDescriptor', 'enumerable', True, 'TTT', '8.10.4 step 5')
+row('i:accessorDescriptor', 'get', 'unlisted-function', attrs='TTT', clause='8.10.4 step 4.a')
+element('i:accessorDescriptor', 'set', None, 'TTT', '8.10.4 step 4.b')
+# arrays made by 15.2.3.14 keys, 15.5.4.14 split, 15.4.4.19 map, 15.12.2 parse, 15.2.3.4 getOwnPropertyNames
+for i, js, e0, cl in [('i:keys', "Object.keys({a:1, b:2})", 'a', '15.2.3.14 step 5'),
+                      ('i:split', "'a,b'.split(',')", 'a', '15.5.4.14 step 13.c.iii.1'),
+                      ('i:mapResult', "['a', 'b'].map(function(x){ return x })", 'a', '15.4.4.19 step 8.c.iii'),
+                      ('i:jsonParsed', "JSON.parse('[7, 8]')", 7, '15.12.2 / 15.12.1.2 JSONArray'),
+                      ('i:matchResult', "'a1b2'.match(/[a-z]/g)", 'a', '15.5.4.10 step 8.f.iii')]:
+    obj(i, 'Array', 'Array.prototype', js=js, clause=cl, grp=I)
+    value(i, 'length', 2, '15.4.5.2', attrs='TFF')
+    element(i, '0', e0, 'TTT', cl)
+    element(i, '1', {'a': 'b', 7: 8}[e0], 'TTT', cl)
+    forin(i, js, 'array made by a library function')
+obj('i:jsonObject', 'Object', 'Object.prototype', js="JSON.parse('[{}]')[0]", clause='15.12.2', grp=I)
+forin('i:execResult', "/b(c)/.exec('abcd')", 'array made by exec')
+forin('i:descriptor', "Object.getOwnPropertyDescriptor({x:1}, 'x')", 'property descriptor object')
+
 # for-in (12.6.4) over ordinary objects: own enumerable properties, then those of the prototype chain
 forin('i:object', '({})', 'ordinary object')
 forin('i:objectNew', '(new Object())', 'ordinary object')
@@ -629,6 +687,13 @@ def rec(d, keys):
 
 
 def main():
+    # for-in order is not specified (12.6.4): the harness sorts the names it sees, the table lists the
+    # enumerable properties of an object in ascending code unit order
+    last = {}
+    for r in ROWS:
+        if isinstance(r['attrs'], str) and len(r['attrs']) == 3 and r['attrs'][1] == 'T':
+            assert last.get(r['owner'], '') < r['name'], (r['owner'], r['name'])
+            last[r['owner']] = r['name']
     out = []
     w = out.append
     w('---------------------------- MODULE LibShapeTab ----------------------------')
@@ -640,7 +705,7 @@ def main():
     w('D(x) == x \\in Dev')
     w('')
     w('Objs == <<')
-    ok = ['id', 'js', 'vo', 'vn', 'cls', 'proto', 'callable', 'ctor', 'ext', 'call', 'callexp', 'clause', 'grp', 'mk']
+    ok = ['id', 'js', 'vo', 'vn', 'cls', 'proto', 'callable', 'ctor', 'ext', 'call', 'callexp', 'clause', 'grp', 'mk', 'reflect']
     w(',\n'.join('  ' + rec(o, ok) for o in OBJS))
     w('>>')
     w('')
